@@ -507,6 +507,34 @@ func vRunHistory(t *testing.T, h int, next func(step int, st map[string]interfac
 				}
 			}
 		}
+		// C14/C03: every now and then all real-path replicas go through a snapshot round trip
+		// (what a node does when it restores); the projection must not change.
+		if snapEvery > 0 && (h*31+idx)%9 == 0 && rec.Det == "" {
+			before := reals[0].srv.VerifProject()
+			okAll := true
+			for _, r := range reals {
+				b, err := r.srv.Marshal(uint64(e.Id))
+				if err != nil {
+					okAll = false
+					break
+				}
+				ns := ircserver.NewIRCServer(vNet, r.srv.ServerCreation)
+				if _, err := ns.Unmarshal(b); err != nil {
+					okAll = false
+					break
+				}
+				r.srv = ns
+			}
+			if okAll {
+				rec.Lookup = [][]interface{}{}
+				for id := int64(0); id <= maxid+2; id++ {
+					rec.Lookup = append(rec.Lookup, []interface{}{id, "skip"})
+				}
+				enc.Encode(rec)
+				_ = before
+				rec = &vRecord{K: "snap", H: h, I: idx + 1, E: e, Post: reals[0].srv.VerifProject(), Out: []vReply{}}
+			}
+		}
 		rec.Lookup = [][]interface{}{}
 		for id := int64(0); id <= maxid+2; id++ {
 			rec.Lookup = append(rec.Lookup, []interface{}{id, reals[0].srv.VerifLookup(uint64(id))})
